@@ -89,6 +89,7 @@ type Exec struct {
 	mapFn     func(*ssa.Function) *ssa.Function // callee translation (naive-form program -> main program)
 	lazyEnv   func(v ssa.Value) Val          // value of an SSA value defined outside the executed region
 	skipAlloc map[*ssa.Alloc]PtrV            // locals with pre-assigned cells
+	onCall    func(st *State, callee *ssa.Function, args []Val) // observer of calls (E-SCAN ghost state)
 	curLabel  string                         // enclosing label (prefix of safety obligation sites)
 }
 
